@@ -149,6 +149,11 @@ def c05(run, a):
 
 def c08(run, a):
     core_check(run, a, "C08", {"quick": ["core_c08.cfg"], "thorough": ["core_c08.cfg", "core_c08_big.cfg"]}, "c08")
+    # the request-order half of the statement is about what Bind writes to the pod: plugin-level traces
+    import ipam_family
+    ipam_family.plugin_traces(run, "C08", run.tier == "quick")
+    run.coverage["rule"] += ("; plus gated-scheduler traces of the real plugin (families %s: multi-range pods, partially pre-owned ranges after template changes) "
+                             "on which MultiInRangeOrdered is evaluated at every pods/binding call" % ipam_family.FOCUS["C08"])
 
 
 def c09(run, a):
